@@ -183,7 +183,7 @@ Lemma finalize_crash hs st w ss : WInv hs st w ss -> CrashInv w (records_from 1 
   CrashInv (snd (w_finalize st w)) (records_from 1 ss).
 Proof.
   intros Inv HC. unfold w_finalize. destruct (ws_dirty st) eqn:Hd; cbn [negb]; [|exact HC].
-  pose proof Inv as [Hwf Hh Hr Hhs (Hp & [Hbp Hpp] & Hsp & _) _].
+  pose proof Inv as [Hwf Hh Hr Hhs (Hp & [Hbp Hpp] & Hsp & _) _ _].
   pose proof (run_ops_log (finalize_ops st) w Hwf (finalize_ops_wf st)) as Hlog.
   destruct (run_ops_ok (finalize_ops st) w Hwf (finalize_ops_wf st)) as (w' & R & _ & B1 & _). rewrite R in *. cbn [snd] in *.
   rewrite (finalize_ops_shp st hs Hhs), (final_header_inv st ss Hh) in Hlog, B1.
@@ -213,8 +213,8 @@ Proof.
   intros Inv Hs Hss HC. destruct (accepts_type ss s) eqn:Ha.
   2:{ destruct ss as [|s0 ss']; [discriminate|]. cbn [accepts_type] in Ha.
       rewrite (write_rejected hs st w ss' s0 s Inv (Forall_inv Hss) Ha). exact HC. }
-  pose proof Inv as [Hwf Hh Hr Hhs (Hp & [Hbp Hpp] & Hsp & _) _].
-  unfold w_write_shape, write_shape_plan. rewrite Hh, hdr_after_type, Hhs.
+  pose proof Inv as [Hwf Hh Hr Hhs (Hp & [Hbp Hpp] & Hsp & _) _ Hint].
+  unfold w_write_shape, write_shape_plan. rewrite Hh, hdr_after_type, Hhs, Hint. cbn [app].
   destruct ss as [|s0 ss'].
   - (* first write *)
     change (st_eqb TNull TNull) with true. cbn [negb andb].
